@@ -256,6 +256,50 @@ func generate(rnd *rand.Rand, thorough bool) []*Prog {
 				}
 			}
 		}
+		// --- derived addresses: tmp := p <op> B where the 32-bit result wraps around (the unwrapped 64-bit value
+		// is far outside the memory), accessed once, twice, and again after a call / a growth in the same block
+		// (the second access re-derives the host address without a bounds check)
+		xops := []string{"l32", "s64"}
+		if sc.full {
+			xops = fewOps
+		}
+		for _, op := range xops {
+			w := int64(ops[op].w)
+			for _, ea := range []int64{16, l - w, l - w + 1} {
+				if ea < 0 || !u32ok(ea) {
+					continue
+				}
+				type der struct {
+					op   string
+					b, p uint32
+					off  uint32
+				}
+				var ds []der
+				for _, c := range []uint32{1, 2, 3, 4} {
+					e := uint32(ea) &^ (1<<c - 1)
+					ds = append(ds, der{"shl", c, e>>c | 1<<(32-c), uint32(ea) - e}, der{"shl", c, e>>c | 3<<(30-c)<<1, uint32(ea) - e})
+				}
+				for _, k := range []uint32{3, 5, 9, 0x10001} {
+					// p = ea * k^-1 mod 2^32 (k odd), so that p*k wraps around to ea
+					inv := k
+					for i := 0; i < 5; i++ {
+						inv *= 2 - k*inv
+					}
+					if p := uint32(ea) * inv; uint64(p)*uint64(k) >= two32 {
+						ds = append(ds, der{"mul", k, p, 0})
+					}
+				}
+				ds = append(ds, der{"add", 0xfffffff0, uint32(ea) + 16, 0}, der{"sub", 0x7fffffff, uint32(ea) + 0x7fffffff, 0})
+				for _, d := range ds {
+					set := Stmt{K: "settmpx", Op: d.op, B: d.b}
+					mk("xsingle", d.p, 0, set, acc(op, "tmp", 0, d.off, val()))
+					mk("xtwice", d.p, 0, set, acc(op, "tmp", 0, d.off, val()), acc(op, "tmp", 0, d.off, val()))
+					mk("xcall", d.p, 0, set, acc(op, "tmp", 0, d.off, val()), Stmt{K: "call"}, acc(op, "tmp", 0, d.off, val()))
+					mk("xcallgrow", d.p, 0, set, acc(op, "tmp", 0, d.off, val()), Stmt{K: "callgrow"}, acc(op, "tmp", 0, d.off, val()))
+					mk("xgrow", d.p, 0, set, acc(op, "tmp", 0, d.off, val()), Stmt{K: "grow", B: 1}, acc(op, "tmp", 0, d.off, val()))
+				}
+			}
+		}
 		// --- store/load round trips
 		if p := l - 16; p >= 0 {
 			for _, off := range []uint32{0, 8} {
